@@ -47,20 +47,20 @@ def queries(tier):
     if not quick:
         hd += [('s5_al13_skipsep_o64', 5, 0x123456789ABCDEFD, 0x842, 16, [(0, 0), (2, 4), (3, 3), (5, 5)]),
                ('s16_al0_noascii', 16, 0x40, 0x0, 2, [(0, 16), (7, 9)]),
-               ('s17_al15_near2e32', 17, 0xFFFFFFEF, 0x2, 16, [(0, 1), (1, 17)]),
+               ('s17_al15_upto2e32', 17, 0xFFFFFFEF, 0x2, 8, [(0, 1), (1, 17)]), ('s12_across2e32', 12, 0xFFFFFFF8, 0x2, 16, [(4, 8)]),
                ('s4_al14_w4', 4, 0xFE, 0x2, 4, [(1, 3)]), ('s2_al15_w8', 2, 0xFFFF, 0x2, 8, [(1, 1)]), ('s2_w8_top32', 2, 0xFFFFFFF0, 0x2, 8, [(0, 2)]),
                ('s20_al7_o16_skipsep', 20, 0x107, 0x240, 4, [(5, 15)]),
-               ('s48_collapse', 48, 0x0, 0x22, 2, [(10, 30)]), ('s50_al3_collapse', 50, 0x13, 0x22, 2, [(0, 50)]),
+               ('s18_al15_collapse', 18, 0xF, 0x22, 2, [(1, 17)]), ('s18_al15_collapse_noascii', 18, 0x2F, 0x20, 2, [(0, 18)]),
                ('s8_below_top', 8, 0xFFFFFFFFFFFFFFE4, 0x2, 16, [(3, 3)])]
     for nm, size, st, fl, w, cuts in hd:
         for c1, c2 in cuts:
-            qs.append(Q('hexdump_%s_c%d_%d' % (nm, c1, c2), 'XP', 'h_hexdump.c', {'SIZE': size, 'START': '0x%xULL' % st, 'FLAGS': fl, 'WIDTH': w, 'C1': c1, 'C2': c2}, max(18, size + 3), unwindset=PRINTF_LOOPS, mem_gb=12,
+            qs.append(Q('hexdump_%s_c%d_%d' % (nm, c1, c2), 'XP', 'h_hexdump.c', {'SIZE': size, 'START': '0x%xULL' % st, 'FLAGS': fl, 'WIDTH': w, 'C1': c1, 'C2': c2}, max(21, size + 3), unwindset=PRINTF_LOOPS, mem_gb=12, timeout=1800,
                         desc='format_data text of %d symbolic bytes at 0x%x, flags 0x%x, iovecs cut at %d/%d, decoded by an independent dump parser' % (size, st, fl, c1, c2),
                         bounds='size %d, start 0x%x, flags 0x%x, cuts (%d,%d), all byte values' % (size, st, fl, c1, c2)))
     # dumps whose last line ends at 2^64 (fixes/format_data-top-of-address-space.patch; VIOLATION on the unpatched tree)
-    for nm, size, st, cuts in (('top_ends_at_2e64', 16, 0xFFFFFFFFFFFFFFF0, (0, 16)), ('top_unaligned_to_2e64', 12, 0xFFFFFFFFFFFFFFF4, (5, 5)), ('top_last_line', 3, 0xFFFFFFFFFFFFFFF4, (1, 2))):
+    for nm, size, st, cuts in (('top_ends_at_2e64', 4, 0xFFFFFFFFFFFFFFFC, (0, 4)), ('top_line_to_2e64', 16, 0xFFFFFFFFFFFFFFF0, (5, 5)), ('top_last_line', 3, 0xFFFFFFFFFFFFFFF4, (1, 2))):
         if quick and nm != 'top_ends_at_2e64':
             continue
-        qs.append(Q('hexdump_' + nm, 'XP', 'h_hexdump.c', {'SIZE': size, 'START': '0x%xULL' % st, 'FLAGS': 0x2, 'WIDTH': 16, 'C1': cuts[0], 'C2': cuts[1]}, max(18, size + 3), unwindset=PRINTF_LOOPS, mem_gb=12,
+        qs.append(Q('hexdump_' + nm, 'XP', 'h_hexdump.c', {'SIZE': size, 'START': '0x%xULL' % st, 'FLAGS': 0x2, 'WIDTH': 16, 'C1': cuts[0], 'C2': cuts[1]}, max(21, size + 3), unwindset=PRINTF_LOOPS, mem_gb=12, timeout=1800,
                     desc='format_data text of %d symbolic bytes whose last line ends at 2^64' % size, bounds='size %d, start 0x%x, all byte values' % (size, st)))
     return qs
